@@ -68,6 +68,8 @@ def build(binname, features):
     env["RUSTFLAGS"] = "--cfg vek_verif -Cinstrument-coverage"
     env["CARGO_TARGET_DIR"] = T
     env["CARGO_NET_OFFLINE"] = "true"
+    # build scripts are instrumented too and would drop default_*.profraw into /repo
+    env["LLVM_PROFILE_FILE"] = os.path.join(T, "prof", "buildscript-%p.profraw")
     cmd = ["cargo", "+nightly", "build", "--offline", "-q", "--release", "-p", "props", "--bin", binname]
     if features:
         cmd += ["--features", features]
